@@ -203,6 +203,19 @@ int main(int argc, char** argv)
         if (op == "eq" && f.size() >= 3) {
             Built a, b;
             if (!build(f[1], "a", a) || !build(f[2], "b", b)) { fprintf(out, "{\"op\":\"harness-error\",\"what\":\"bad value encoding\"}\n"); break; }
+            if (f.size() >= 4 && f[3] == "alias" && f[1][0] == 'M' && f[2][0] == 'M') {
+                // the two buffers start at the SAME address (the code under test sends a prefix of the array the expectation used,
+                // or the same array): equality is still by length and content, never by address
+                std::string sa = vh_unhex(f[1].substr(2)), sb = vh_unhex(f[2].substr(2));
+                const std::string& longer = sa.size() >= sb.size() ? sa : sb;
+                char* shared = (char*) malloc(longer.size() + 1);
+                memcpy(shared, longer.data(), longer.size());
+                a.owned.push_back(shared);
+                if (longer.compare(0, sa.size(), sa) == 0 && longer.compare(0, sb.size(), sb) == 0) {
+                    a.v->setMemoryBuffer((const unsigned char*) shared, sa.size());
+                    b.v->setMemoryBuffer((const unsigned char*) shared, sb.size());
+                }
+            }
             bool ab = a.v->equals(*b.v);
             bool ba = b.v->equals(*a.v);
             fprintf(out, "{\"op\":\"eq\",\"a\":%s,\"b\":%s,\"ab\":%s,\"ba\":%s}\n", a.json.c_str(), b.json.c_str(), ab ? "true" : "false", ba ? "true" : "false");
